@@ -160,7 +160,7 @@ namespace trompeloeil {
     retire_predecessors()
     noexcept
     {
-      seq->retire_until(this);
+      if (this->is_linked()) seq->retire_until(this);
     }
 
     void
